@@ -133,9 +133,13 @@ def check(prop, tier, seed, replay=None):
             sd = dict(x.split('=') for x in s_.split()); dd = dict(x.split('=') for x in d_.split())
             if sd['ext'] != dd['ext'] or sd['offs'] != dd['offs']:
                 rep.violation(dict(kind='library-offers-a-conversion-that-does-not-preserve-the-mapping (no such constructor is specified)', line=line, meta=meta, impl=xi, config=cfg))
-        iout = [canon(x) for x in C.pipe(exe, lines)]
+        iout = [canon(x) for x in C.pipe_resilient(exe, lines)]
         for k, ((line, meta), xi, xm) in enumerate(zip(conv + eqs, iout, mout)):
             if partial and xi == 'no-inst': continue
+            if xi.startswith('died'):
+                # every line sent has its precondition satisfied (ConvPreG) and representable values: the process must not end here
+                if 'not run' not in xi: rep.violation(dict(kind='valid-conversion-or-comparison-terminates-the-program (debug check / crash)', line=line, fam='conv' if k < len(conv) else 'eq', meta=meta, impl=xi, config=cfg))
+                continue
             rep.cov['evaluations'] += 1; rep.cov['traces_validated_against_impl'] += 1
             fam = 'conv' if k < len(conv) else 'eq'
             pub = dict(line=line, fam=fam, meta=meta, config=cfg)
